@@ -113,3 +113,44 @@ Fixpoint gearfailing_from (i : N) (l : list (gcall * gexp)) : list (N * (N * N))
   end.
 Definition gearfailing (l : list (gcall * gexp)) : list (N * (N * N)) := gearfailing_from 0 l.
 End GearCorr.
+
+(** * ReportCorr: snapshot and export of the model (binary64) on a recorded history against gearpy's on the same history *)
+From GP Require Import Report.
+Section ReportCorr.
+Variable O : oracle.
+Notation FX := (FA O).
+Inductive snapexp := SnapOk (cols : list string) (rows : list (string * list (option float))) | SnapErr (e : exn).
+Inductive expexp := ExpOk (cols : list (string * list float)) | ExpErr (e : exn).
+Inductive repcall :=
+  | RSnap (times : list (qty FX)) (els : list (@erec FX)) (req : option (list string)) (us : units) (target : qty FX) (e : snapexp)
+  | RExport (times : list (qty FX)) (el : @erec FX) (us : units) (e : expexp).
+Definition ofl_eqb (a : option float) (b : option float) : bool :=
+  match a, b with None, None => true | Some x, Some y => fbits_eq x y | _, _ => false end.
+Fixpoint ofls_eqb (a b : list (option float)) : bool :=
+  match a, b with [], [] => true | x :: a', y :: b' => ofl_eqb x y && ofls_eqb a' b' | _, _ => false end.
+Fixpoint fls_eqb (a b : list float) : bool :=
+  match a, b with [], [] => true | x :: a', y :: b' => fbits_eq x y && fls_eqb a' b' | _, _ => false end.
+Fixpoint rows_eqb (a b : list (string * list (option float))) : bool :=
+  match a, b with [], [] => true | (n, c) :: a', (n', c') :: b' => String.eqb n n' && ofls_eqb c c' && rows_eqb a' b' | _, _ => false end.
+Fixpoint cols_eqb (a b : list (string * list float)) : bool :=
+  match a, b with [], [] => true | (n, c) :: a', (n', c') :: b' => String.eqb n n' && fls_eqb c c' && cols_eqb a' b' | _, _ => false end.
+Definition repcall_code (c : repcall) : N :=
+  match c with
+  | RSnap times els req us target e =>
+      match snapshot times els req us target, e with
+      | Ok (cols, rows), SnapOk cols' rows' => if negb (strs_eqb cols cols') then 1%N else if rows_eqb rows rows' then 0%N else 2%N
+      | Err x, SnapErr y => if exn_eqb x y then 0%N else 3%N
+      | _, _ => 4%N end
+  | RExport times el us e =>
+      match export times el us, e with
+      | Ok cols, ExpOk cols' => if cols_eqb cols cols' then 0%N else 5%N
+      | Err x, ExpErr y => if exn_eqb x y then 0%N else 6%N
+      | _, _ => 7%N end
+  end.
+Fixpoint repfailing_from (i : N) (l : list repcall) : list (N * (N * N)) :=
+  match l with
+  | [] => []
+  | c :: l' => let k := repcall_code c in if N.eqb k 0 then repfailing_from (N.succ i) l' else (i, (k, 0%N)) :: repfailing_from (N.succ i) l'
+  end.
+Definition repfailing (l : list repcall) : list (N * (N * N)) := repfailing_from 0 l.
+End ReportCorr.
